@@ -32,6 +32,16 @@ Theorem C12_5321_included_in_822 :
 Proof. exact incl_5321_822. Qed.
 Print Assumptions C12_5321_included_in_822.
 
+(* address level: an address that mode 5321 takes as far as a form flag (every accepted address carries one, C16)
+   gets the identical result record - decision, class, flags, parts - from mode 822 *)
+Theorem C12_5321_addresses_included_in_822 :
+  forall idn g tbl t a, nulfree a ->
+    (is_domain (email idn g tbl (MA M5321) t a) = true \/ is_ipv4 (email idn g tbl (MA M5321) t a) = true
+     \/ is_ipv6 (email idn g tbl (MA M5321) t a) = true) ->
+    email idn g tbl (MA M822) t a = email idn g tbl (MA M5321) t a.
+Proof. exact addr_5321_in_822. Qed.
+Print Assumptions C12_5321_addresses_included_in_822.
+
 (* for a fixed domain part the ASCII modes report the same domain verdict, class and flags *)
 Theorem C12_domain_verdict_mode_independent :
   forall idn g tbl m1 m2 t l1 l2 d,
@@ -49,3 +59,9 @@ Proof.
   split; [repeat constructor; cbv; try discriminate; intros H; discriminate H|].
   repeat split; vm_compute; try reflexivity; discriminate.
 Qed.
+
+(* the premise of C12_5321_addresses_included_in_822 is met by an ordinary address *)
+Example C12_example_addr :
+  nulfree (bs "a.b@c.de") /\
+  is_domain (email (fun _ => IdnErr 0 false) cfg0 [] (MA M5321) false (bs "a.b@c.de")) = true.
+Proof. split; [apply nulfreeb_spec|]; vm_compute; reflexivity. Qed.
